@@ -21,15 +21,35 @@ Laws ==
     /\ \A o \in OutTypes : Meaning(<<T_do \o o>>) = Meaning(<<T_do, o>>) /\ Meaning(<<T_do, o>>).k = "accept"
     /\ Meaning(<<T_dk \o Pkg>>) = Meaning(<<T_dk, Pkg>>) /\ Meaning(<<T_dk, Pkg>>).cfg.pkg = Pkg
     /\ Meaning(<<T_do \o T_normal>>) = Meaning(<<T_do \o T_eclipse>>)
-    /\ Meaning(<<T_dr>>).cfg.repeat = 2 /\ Meaning(<<T_dr, T_dv>>).cfg.repeat = 2 /\ Meaning(<<T_dr, T_dv>>).cfg.verbose
-    /\ Meaning(<<T_ds>>).cfg.shuffle /\ Meaning(<<T_ds>>).cfg.seed = 0
+    /\ Meaning(<<T_dr>>).cfg.repeat = <<50>> /\ Meaning(<<T_dr, T_dv>>).cfg.repeat = <<50>> /\ Meaning(<<T_dr, T_dv>>).cfg.verbose
+    /\ Meaning(<<T_ds>>).cfg.shuffle /\ Meaning(<<T_ds>>).cfg.seed = <<>>
+    \* numbers are data: the configured count / seed is the digit string without its leading zeros, over the whole range 1..2^32-1
+    /\ \A nm \in InRangeNames : LET n == NumText(nm) IN
+         /\ Meaning(<<T_ds \o n>>).k = "accept" /\ Meaning(<<T_ds \o n>>).cfg.seed = Canon(n) /\ Meaning(<<T_ds \o n>>).cfg.shuffle
+         /\ Meaning(<<T_dr \o n>>).k = "accept" /\ Meaning(<<T_dr \o n>>).cfg.repeat = Canon(n)
+         /\ Meaning(<<T_ds, n>>) = Meaning(<<T_ds \o n>>) /\ Meaning(<<T_dr, n>>) = Meaning(<<T_dr \o n>>)
+         /\ Meaning(<<T_ds \o <<48, 48>> \o n>>) = Meaning(<<T_ds \o n>>)                         \* leading zeros do not change the number
+         /\ Canon(Canon(n)) = Canon(n) /\ (Canon(n) = n) = (n[1] # 48)
+    /\ Meaning(<<T_ds \o NumText("2^32-1")>>).cfg.seed = T_MaxCount /\ Meaning(<<T_ds \o NumText("2^31")>>).cfg.seed = NumText("2^31")
+    \* outside the range: no documented meaning - except the attached zero seed, which the help text declares invalid
+    /\ \A nm \in OutOfRangeNames : LET n == NumText(nm) IN
+         /\ Meaning(<<T_dr \o n>>).k = "undoc" /\ Meaning(<<T_dr, n>>).k = "undoc" /\ Meaning(<<T_ds, n>>).k = "undoc"
+         /\ Meaning(<<T_ds \o n>>).k = (IF IsZeroNumber(n) THEN "invalid" ELSE "undoc")
+    /\ Meaning(<<T_ds \o <<48>>, T_do \o T_normal>>).k = "invalid" /\ Meaning(<<T_dv, T_ds \o <<48>>, T_dst, <<65, 46, 120>>>>).k = "invalid"
+    /\ Meaning(<<T_ds \o <<48>>, T_dh>>).k = "invalid" /\ Meaning(<<T_dh, T_ds \o <<48>>>>).k = "help"
+    /\ Meaning(<<T_ds \o <<48>>, <<45, 113>>>>).k = "undoc" /\ Meaning(<<<<45, 113>>, T_ds \o <<48>>>>).k = "undoc"
+    \* the order of canonical digit strings is the order of the numbers
+    /\ \A a \in 1..120, b \in 1..120 : DecLeq(Digits(a), Digits(b)) = (a <= b)
+    /\ \A a \in 0..120 : IntVal(Digits(a)) = a /\ IsSmallNumber(Digits(a)) = (a <= 100)
+    /\ DecLeq(NumText("2^31-1"), NumText("2^31")) /\ ~DecLeq(NumText("2^32"), T_MaxCount) /\ DecLeq(NumText("3000000123"), T_MaxCount)
     /\ Meaning(<<T_de>>) = Meaning(<<T_dci>>)
     \* flags: order and multiplicity do not matter; -h anywhere among documented tokens means help
     /\ \A f1, f2 \in Flags : Meaning(<<f1, f2>>) = Meaning(<<f2, f1>>) /\ Meaning(<<f1, f1>>) = Meaning(<<f1>>)
     /\ \A t \in ExactFlags : Meaning(<<t, T_dh>>).k = "help" /\ Meaning(<<T_dh, t>>).k = "help"
     /\ \A t \in Malformed : Meaning(<<T_dh, t>>).k = "help"
     \* every malformed token leaves the documented language, wherever it stands
-    /\ \A t \in Malformed \ {<<>>} : Meaning(<<t>>).k = "undoc" /\ Meaning(<<T_dv, t>>).k = "undoc"
+    /\ \A t \in Malformed \ {<<>>, T_ds \o <<48>>} : Meaning(<<t>>).k = "undoc" /\ Meaning(<<T_dv, t>>).k = "undoc"
+    /\ Meaning(<<T_ds \o <<48>>>>).k = "invalid" /\ Meaning(<<T_dv, T_ds \o <<48>>>>).k = "invalid"
     \* a bare value is not an option
     /\ \A t \in GVals \cup NVals \cup Numbers \cup DotVals \cup OutTypes : Meaning(<<t>>).k = "undoc"
     \* a missing value is not documented
